@@ -1879,6 +1879,15 @@ func (f *Frame) recordCall(st *State, name string, errVal *Term) {
 		le := c.heapGet(st, "G!lasterr", ArrSort(SStr, SIfc))
 		c.heapSet(st, "G!lasterr", Store(le, k, errVal))
 	}
+	// order of recorded calls: a global ghost clock, ticked by every recorded call; firstCall(name) is the tick of
+	// the first call of that name
+	clk := c.heapGet(st, "G!clock", ArrSort(SInt, SInt))
+	now := Add(Select(clk, IntLit(0)), IntLit(1))
+	c.heapSet(st, "G!clock", Store(clk, IntLit(0), now))
+	first := c.heapGet(st, "G!first", ArrSort(SStr, SInt))
+	c.heapSet(st, "G!first", Store(first, k, Ite(Select(called, k), Select(first, k), now)))
+	last := c.heapGet(st, "G!last", ArrSort(SStr, SInt))
+	c.heapSet(st, "G!last", Store(last, k, now))
 }
 
 // ---------------------------------------------------------------- snapshot output stream (trusted)
